@@ -165,6 +165,9 @@ pub fn worker_gen(req: &Value, _io: &mut ServerIo) -> Value {
         Err(e) => return json!({"error": e}),
     };
     for op in &ops {
+        if matches!(op, Op::Header(_)) {
+            c13::write_extra_headers(&dir);
+        }
         let r = std::panic::catch_unwind(std::panic::AssertUnwindSafe(|| c13::apply(b.clone(), op, &dir)));
         b = match r {
             Ok(Ok(x)) => x,
@@ -220,6 +223,8 @@ fn ops_strategy() -> BoxedStrategy<Vec<Op>> {
     let safe = c13::op_strategy().prop_filter("C12 option domain", |op| match op {
         // the property's own exclusion
         Op::Bool(m, _) if m == "represent_cxx_operators" || m == "use_distinct_char16_t" => false,
+        // a second input header would become the main file and decide the language
+        Op::Header(_) => false,
         // values pasted as Rust tokens / attributes / paths: user-code preconditions
         Op::Str(m, v) => {
             let pasted = matches!(m.as_str(), "ctypes_prefix" | "anon_fields_prefix" | "raw_line" | "extern_fn_block_attrs" | "wasm_import_module_name" | "dynamic_library_name" | "wrap_static_fns_suffix");
@@ -275,6 +280,9 @@ impl C12 {
                     "stack-overflow-or-segv"
                 } else if sig == Some(6) {
                     "abort"
+                } else if sig == Some(8) {
+                    // Rust arithmetic panics instead of trapping: SIGFPE comes from C code (libclang)
+                    "sigfpe"
                 } else {
                     "exit"
                 };
